@@ -1,9 +1,14 @@
 package desync
 
 import (
+	"bytes"
 	"encoding/binary"
 	"io"
+	"math"
 )
+
+// Largest buffer ReadN allocates before any of the data was seen
+const readNPrealloc = 64 * 1024
 
 type reader struct {
 	io.Reader
@@ -22,11 +27,26 @@ func (r reader) ReadUint64() (uint64, error) {
 // ReadN returns the next n bytes from the reader or an error if there are not
 // enough left
 func (r reader) ReadN(n uint64) ([]byte, error) {
-	b := make([]byte, n)
-	if _, err := io.ReadFull(r, b); err != nil {
+	if n <= readNPrealloc {
+		b := make([]byte, n)
+		if _, err := io.ReadFull(r, b); err != nil {
+			return nil, err
+		}
+		return b, nil
+	}
+	// n usually comes from the input, don't trust it to size the buffer. Let
+	// the buffer grow with the data that is really there.
+	if n > math.MaxInt64 {
+		return nil, io.ErrUnexpectedEOF
+	}
+	var buf bytes.Buffer
+	if _, err := io.CopyN(&buf, r, int64(n)); err != nil {
+		if err == io.EOF && buf.Len() > 0 {
+			err = io.ErrUnexpectedEOF
+		}
 		return nil, err
 	}
-	return b, nil
+	return buf.Bytes(), nil
 }
 
 // ReadID reads and returns a ChunkID
